@@ -102,6 +102,10 @@ class NTPClient(Service, discriminator="ntp-client"):
         if not isinstance(payload, NTPPacket):
             self.sys_log.warning(f"{self.name}: Failed to parse NTP update")
             return False
+        if payload.ntp_reply is None:
+            # a time request that reached an NTP client (the configured server address runs no NTP server): not a reply
+            self.sys_log.warning(f"{self.name}: Ignoring NTP packet without a reply")
+            return False
         if payload.ntp_reply.ntp_datetime:
             self.time = payload.ntp_reply.ntp_datetime
             return True
